@@ -119,6 +119,14 @@ def run(rep, ctx):
             return old_ if e.get("postfix") else env["n"]
         if k == "UnaryOperator" and e.get("op") == "!":
             return int(not mc_eval(kids(e)[0], env))
+        if k == "BinaryOperator" and e.get("op") == ",":
+            mc_eval(kids(e)[0], env)
+            return mc_eval(kids(e)[1], env)
+        if k in ("BinaryOperator", "CompoundAssignOperator") and e.get("op") in ("=", "+=", "-=") and render(kids(e)[0]).replace("this->", "") == "n_":
+            v_ = mc_eval(kids(e)[1], env)
+            env["n"] = v_ if e["op"] == "=" else env["n"] + (v_ if e["op"] == "+=" else -v_)
+            env["incs"] += 1
+            return env["n"]
         if k == "BinaryOperator" and e.get("op") in ("==", "!=", "<", ">", "<=", ">=", "&&", "||"):
             a = mc_eval(kids(e)[0], env)
             if e["op"] == "&&":
